@@ -17,6 +17,7 @@ type targetPanic struct {
 	v    value
 	site string
 	rt   bool // raised by the runtime (nil deref, bounds, ...) rather than panic()
+	stack []string
 }
 
 func (p *targetPanic) String() string { return toString(p.v) }
